@@ -16,6 +16,8 @@ pub assume_specification[::std::time::Duration::saturating_sub](a: Duration, b: 
     ensures dur_ns(r) == (if dur_ns(a) >= dur_ns(b) { dur_ns(a) - dur_ns(b) } else { 0 });
 pub assume_specification[::std::time::Duration::is_zero](a: &Duration) -> (r: bool)
     ensures r == (dur_ns(*a) == 0);
+pub assume_specification[::std::time::Duration::as_nanos](a: &Duration) -> (r: u128)
+    ensures r as nat == dur_ns(*a);
 pub assume_specification[::std::time::Duration::as_secs](a: &Duration) -> (r: u64)
     ensures r as nat == dur_ns(*a) / 1_000_000_000;
 
@@ -64,3 +66,10 @@ impl ::std::convert::From<std::time::SystemTimeError> for AnyErr {
     #[verifier::external_body]
     fn from(e: std::time::SystemTimeError) -> AnyErr { unimplemented!() }
 }
+
+// String::from(&str) copies the characters (std); stated over vstd's From spec functions
+pub broadcast axiom fn axiom_string_from_str(s: &str)
+    ensures #![trigger s@]
+        <String as vstd::std_specs::convert::FromSpec<&str>>::obeys_from_spec(),
+        (<String as vstd::std_specs::convert::FromSpec<&str>>::from_spec(s))@ == s@;
+
